@@ -201,9 +201,13 @@ class LiteralConverter(Converter[T_co]):
 
     vals: t.Sequence[T_co]
 
+    def _is_member(self, val: t.Any) -> bool:
+        # equality alone would accept values of another kind (True == 1 == 1.0)
+        return any(type(val) is type(v) and val == v for v in self.vals)
+
     def try_convert(self, val: t.Any) -> T_co:
         """See [`Converter.try_convert`][pane.converters.Converter.try_convert]"""
-        if val in self.vals:
+        if self._is_member(val):
             return val
         raise ParseInterrupt()
 
@@ -214,7 +218,7 @@ class LiteralConverter(Converter[T_co]):
 
     def collect_errors(self, val: t.Any) -> t.Optional[WrongTypeError]:
         """See [`Converter.collect_errors`][pane.converters.Converter.collect_errors]"""
-        if val in self.vals:
+        if self._is_member(val):
             return None
         return WrongTypeError(self.expected(), val)
 
